@@ -1,30 +1,155 @@
 package trzsz
 
-func verifNondetByte() byte
-func verifNondetInt() int
-func verifNondetBool() bool
-func verifNondetRange(lo, hi int) int
-func verifAssume(bool)
-func verifAssert(bool, string)
-func verifReach(string)
-func verifExpectBlock(int)
+// C16 — protocol lines survive the noise tmux and the Windows console add.
+// The payload alphabet and every noise grammar below are written from the property text and the documented console
+// captures, independently of the code's own predicates.
 
-const zzX = 5
+type zzNop16 struct{}
 
-// three lines in one chunk: "a!" LF? "b!" then zzX symbolic bytes (letters, LF, space) and a final "!"
+func (zzNop16) Write(p []byte) (int, error) { return len(p), nil }
+
+// zzIsLetter: the protocol alphabet [A-Za-z0-9#:+/=]
+func zzIsLetter(c byte) bool {
+	if c >= 'a' && c <= 'z' {
+		return true
+	}
+	if c >= 'A' && c <= 'Z' {
+		return true
+	}
+	if c >= '0' && c <= '9' {
+		return true
+	}
+	return c == '#' || c == ':' || c == '+' || c == '/' || c == '='
+}
+
+func zzIsAlpha(c byte) bool {
+	if c >= 'a' && c <= 'z' {
+		return true
+	}
+	return c >= 'A' && c <= 'Z'
+}
+
+func zzLetter() byte {
+	c := verifNondetByte()
+	verifAssume(zzIsLetter(c))
+	return c
+}
+
+func zzSame16(got, want []byte) {
+	verifAssert(len(got) == len(want), "length")
+	for i := range want {
+		verifAssert(got[i] == want[i], "content")
+	}
+}
+
+// the control strings tmux emits around a status-line redraw (captured form: a DCS pair with cursor controls between)
+const zzStatus = "\x1bP=1s\x1b\\\x1b[?25l\x1b[?12l\x1b[?25h\x1b[5 q\x1bP=2s\x1b\\"
+
+// tmux: unrelated text before the marker, a CR LF wrap in every gap (also directly before the terminator and at
+// position 0), one status string at any gap after the marker
+func zzH_C16_tmux() {
+	t := newTransfer(zzNop16{}, nil, false, nil)
+	t.transferConfig.TmuxOutputJunk = true
+	nl := verifBound("L")
+	payload := []byte{'#', 'S', ':'}
+	for i := 0; i < nl; i++ {
+		c := zzLetter()
+		verifAssume(c != '#')
+		payload = append(payload, c)
+	}
+	var stream []byte
+	for i := 0; i < verifBound("JUNK"); i++ {
+		if verifNondetBool() {
+			j := verifNondetByte()
+			verifAssume(j != '\n')
+			verifAssume(j != '\r')
+			verifAssume(j != 3)
+			verifAssume(j != '#')
+			verifAssume(j != 0x1b)
+			stream = append(stream, j)
+		}
+	}
+	statusAt := verifNondetRange(3, len(payload)+1) // len+1 = no status string
+	for i, c := range payload {
+		if verifNondetBool() {
+			stream = append(stream, '\r', '\n')
+		}
+		if i == statusAt {
+			stream = append(stream, zzStatus...)
+		}
+		stream = append(stream, c)
+	}
+	if statusAt == len(payload) {
+		stream = append(stream, zzStatus...)
+	}
+	if verifNondetBool() {
+		stream = append(stream, '\r', '\n')
+	}
+	stream = append(stream, '\n')
+	t.buffer.addBuffer(stream)
+	verifExpectBlock(1)
+	line, err := t.recvLine("S", false, nil)
+	verifExpectBlock(0)
+	verifAssert(err == nil, "error")
+	zzSame16(line, payload)
+	verifReach("tmux")
+}
+
+// a Ctrl-C anywhere before the terminator interrupts, in both readers, whatever surrounds it
+func zzH_C16_ctrlC() {
+	n := verifBound("N")
+	win := verifNondetBool()
+	at := verifNondetRange(0, n-1)
+	stream := make([]byte, 0, n+2)
+	for i := 0; i < n; i++ {
+		c := verifNondetByte()
+		if i == at {
+			verifAssume(c == 3)
+		} else if win {
+			verifAssume(c != '!')
+		} else {
+			verifAssume(c != '\n')
+		}
+		stream = append(stream, c)
+	}
+	if win {
+		stream = append(stream, '!')
+	} else {
+		stream = append(stream, '\n')
+	}
+	t := newTransfer(zzNop16{}, nil, false, nil)
+	t.transferConfig.TmuxOutputJunk = !win
+	t.windowsProtocol = win
+	cut := verifNondetRange(1, len(stream))
+	t.buffer.addBuffer(stream[:cut])
+	if cut < len(stream) {
+		t.buffer.addBuffer(stream[cut:])
+	}
+	verifExpectBlock(1)
+	_, err := t.recvLine("S", false, nil)
+	verifExpectBlock(0)
+	verifAssert(err != nil, "Ctrl-C did not interrupt")
+	if err != nil {
+		verifAssert(err.Error() == "Interrupted", "wrong error for Ctrl-C")
+	}
+	verifReach("ctrl-c")
+}
+
+// Windows, three lines in one read: "a!" LF? "b!" then X symbolic bytes (letters, LF, space) and a final "!"
 func zzH_C16_threeLines() {
-	chunk := make([]byte, 0, zzX+8)
+	x := verifBound("X")
+	chunk := make([]byte, 0, x+8)
 	chunk = append(chunk, 'a', '!')
 	if verifNondetBool() {
 		chunk = append(chunk, '\n')
 	}
 	chunk = append(chunk, 'b', '!')
 	var want []byte
-	for i := 0; i < zzX; i++ {
+	for i := 0; i < x; i++ {
 		c := verifNondetByte()
 		k := verifNondetRange(0, 2)
 		if k == 0 {
-			verifAssume(isTrzszLetter(c))
+			verifAssume(zzIsLetter(c))
 			want = append(want, c)
 		} else if k == 1 {
 			verifAssume(c == '\n')
@@ -39,57 +164,128 @@ func zzH_C16_threeLines() {
 	b.addBuffer(chunk)
 	verifExpectBlock(1)
 	l1, err := b.readLineOnWindows(nil)
-	verifAssert(err == nil && len(l1) == 1 && l1[0] == 'a', "first line")
+	verifAssert(err == nil, "first line error")
+	zzSame16(l1, []byte{'a'})
 	l2, err := b.readLineOnWindows(nil)
-	verifAssert(err == nil && len(l2) == 1 && l2[0] == 'b', "second line")
+	verifAssert(err == nil, "second line error")
+	zzSame16(l2, []byte{'b'})
 	l3, err := b.readLineOnWindows(nil)
 	verifExpectBlock(0)
 	verifAssert(err == nil, "third line error")
-	verifAssert(len(l3) == len(want), "third line length")
-	for i := range want {
-		verifAssert(l3[i] == want[i], "third line content")
-	}
+	zzSame16(l3, want)
 	verifReach("three-lines")
 }
 
-const zzP = 3
-
-// W1: padding and CSI sequences between payload letters (no LF, so the re-print rule is not in play)
-func zzH_C16_winNoise() {
-	var stream []byte
-	var want []byte
-	for i := 0; i < zzP; i++ {
-		k := verifNondetRange(0, 2)
-		if k == 1 {
-			pad := verifNondetByte()
-			verifAssume(!isTrzszLetter(pad) && pad != 0x1b && pad != 3 && pad != '!' && pad != '\n')
-			stream = append(stream, pad)
-		} else if k == 2 {
-			d := verifNondetByte()
-			verifAssume(d >= '0' && d <= '9' || d == ';' || d == '?')
-			f := verifNondetByte()
-			verifAssume(isVT100End(f))
-			stream = append(stream, 0x1b, '[', d, f)
-		}
-		c := verifNondetByte()
-		verifAssume(isTrzszLetter(c))
-		stream = append(stream, c)
-		want = append(want, c)
-	}
-	stream = append(stream, '!')
+func zzCutFeed(stream []byte) *trzszBuffer {
 	b := newTrzszBuffer()
 	cut := verifNondetRange(1, len(stream))
 	b.addBuffer(stream[:cut])
 	if cut < len(stream) {
 		b.addBuffer(stream[cut:])
 	}
+	return b
+}
+
+// W1: padding bytes and CSI sequences (colour, cursor) between payload letters; '!' may occur inside a CSI
+func zzH_C16_winNoise() {
+	var stream []byte
+	var want []byte
+	for i := 0; i < verifBound("P"); i++ {
+		k := verifNondetRange(0, 2)
+		if k == 1 {
+			pad := verifNondetByte()
+			verifAssume(!zzIsLetter(pad))
+			verifAssume(pad != 0x1b)
+			verifAssume(pad != 3)
+			verifAssume(pad != '!')
+			verifAssume(pad != '\n')
+			stream = append(stream, pad)
+		} else if k == 2 {
+			d := verifNondetByte()
+			verifAssume(!zzIsAlpha(d))
+			verifAssume(d >= 0x20)
+			verifAssume(d < 0x40)
+			verifAssume(d != '!')
+			f := verifNondetByte()
+			verifAssume(zzIsAlpha(f))
+			stream = append(stream, 0x1b, '[', d, f)
+		}
+		c := zzLetter()
+		stream = append(stream, c)
+		want = append(want, c)
+	}
+	stream = append(stream, '!')
+	b := zzCutFeed(stream)
 	verifExpectBlock(1)
 	l, err := b.readLineOnWindows(nil)
 	verifExpectBlock(0)
 	verifAssert(err == nil, "error")
-	verifAssert(len(l) == len(want), "length")
-	for i := range want {
-		verifAssert(l[i] == want[i], "content")
-	}
+	zzSame16(l, want)
 	verifReach("win-noise")
+}
+
+func zzPad(stream []byte) []byte {
+	if verifNondetBool() {
+		p := verifNondetByte()
+		verifAssume(!zzIsLetter(p))
+		verifAssume(p != 0x1b)
+		verifAssume(p != 3)
+		verifAssume(p != '!')
+		verifAssume(p != '\n')
+		stream = append(stream, p)
+	}
+	return stream
+}
+
+func zzDigit() byte {
+	d := verifNondetByte()
+	verifAssume(d >= '0')
+	verifAssume(d <= '9')
+	return d
+}
+
+// W2: the last letter is re-printed after LF + cursor positioning ("8 CR LF ESC[25;119H 8")
+func zzH_C16_winReprint() {
+	nl := verifBound("L")
+	letters := make([]byte, nl)
+	for i := range letters {
+		letters[i] = zzLetter()
+	}
+	at := verifNondetRange(0, nl-1) // after which letter the re-print happens
+	var stream []byte
+	for i, c := range letters {
+		stream = append(stream, c)
+		if i == at {
+			stream = zzPad(stream)
+			stream = append(stream, '\r', '\n')
+			stream = zzPad(stream)
+			stream = append(stream, 0x1b, '[', zzDigit(), ';', zzDigit(), 'H', c)
+		}
+	}
+	stream = append(stream, '!')
+	b := zzCutFeed(stream)
+	verifExpectBlock(1)
+	l, err := b.readLineOnWindows(nil)
+	verifExpectBlock(0)
+	verifAssert(err == nil, "error")
+	zzSame16(l, letters)
+	verifReach("reprint")
+}
+
+// W3: a junk letter printed at cursor home, replaced after a cursor move + LF ("o ESC[H p ESC[60;238H CR LF p7bu8!")
+func zzH_C16_winHome() {
+	l0, l1, l2, x := zzLetter(), zzLetter(), zzLetter(), zzLetter()
+	var stream []byte
+	stream = append(stream, l0)
+	stream = zzPad(stream)
+	stream = append(stream, 0x1b, '[', 'H', x, 0x1b, '[', zzDigit(), ';', zzDigit(), 'H')
+	stream = zzPad(stream)
+	stream = append(stream, '\r', '\n', l1, l2, '!')
+	b := zzCutFeed(stream)
+	verifExpectBlock(1)
+	l, err := b.readLineOnWindows(nil)
+	verifExpectBlock(0)
+	verifAssert(err == nil, "error")
+	zzSame16(l, []byte{l0, l1, l2})
+	verifReach("home")
 }
